@@ -41,6 +41,7 @@ def step (_ : Unit) (line : String) : Unit × String :=
   | ("burst" :: _) => ((), "-")     -- real-TCP loopback burst: harness monitor only
   | ("soak" :: _) => ((), "-")
   | ("mesh" :: _) => ((), "-")
+  | ("pace" :: _) => ((), "-")
   | _ => ((), "bad-op")
 
 def engine : Engine := { σ := Unit, init := (), step := step }
